@@ -87,7 +87,10 @@ fn process(rx: mpsc::Receiver<(u32, Vec<u8>)>) {
     while let Ok((id, bytes)) = rx.recv() {
         n += 1;
         if let Some((kind, at)) = &fault {
-            if *at == n {
+            // n = 0: keyed on content instead (the pristine canary input of entry point 0), so that
+            // the fault also fires when the delivery is re-run alone in a fresh worker
+            let hit = if *at == 0 { id == 0 && Some(&bytes) == canaries.inputs.first() } else { *at == n };
+            if hit {
                 inject(kind, &mut canaries);
             }
         }
